@@ -84,10 +84,20 @@ def keyword_words(kinfo):
     return common, set(re.findall(r'^\s*"([A-Z][A-Z0-9_]*)",\s*$', red, re.M)) - common
 
 
-def f33_name(n):
-    """spelled like a generated name up to letter case, but not exactly"""
+def case_variant_of_generated(n, prefix):
+    """spelled like a generated name of this prefix up to letter case, but not exactly"""
     import re
-    return fold(n) != n and re.fullmatch(r"(table_|_expr_)[0-9]+", fold(n)) is not None
+    return fold(n) != n and re.fullmatch(re.escape(fold(prefix)) + r"[0-9]+", fold(n)) is not None
+
+
+def f33b_case(case, col_prefix="_expr_"):
+    """F33b (open): a COLUMN of the program is a case variant of a generated column name AND the emitted SQL uses exactly that
+    generated name too (as a bare word), so that the two meet in one SELECT list.  Only columns count: the table side (F33)
+    was repaired by 99a89d3 and excuses nothing any more."""
+    import re
+    sql = case.get("sql", "")
+    return any(case_variant_of_generated(n, col_prefix) and re.search(r'(?<![\w"`])' + re.escape(fold(n)) + r'(?![\w"`])', sql)
+               for n in case.get("cols", []))
 
 
 def run():
@@ -103,10 +113,9 @@ def run():
             ck.coverage.setdefault("translator_error", []).append(inf["error"])
 
     def cl_names(case):
-        # F18, F32, F31 are FIXED (68466ba, b5c2cd4, 75c6718): nothing excuses them any more
-        names = case.get("names", [])
-        if any(f33_name(n) for n in names):
-            return "F33-generated-name-case-clash"
+        # F18, F32, F31, F33 are FIXED (68466ba, b5c2cd4, 75c6718, 99a89d3): nothing excuses them any more
+        if case.get("kind") == "e2e" and f33b_case(case, dinfo.get("col_prefix", "_expr_")):
+            return "F33b-generated-column-name-case-clash"
         return None
 
     # ------------------------------------------------------------ names
@@ -346,7 +355,7 @@ def run():
         else:
             raise ValueError(skeleton)
         tests.append({"src": src, "setup": setup, "expected": sorted(exp), "names": [n for n in (T, U, alias_t, alias_u, K, C1, C2, C3) if n], "skeleton": skeleton, "position": position,
-                      "cols": [K, C1, C2, C3]})
+                      "cols": [K, C1, C2, C3], "tables": [T, U, alias_t, alias_u]})
 
     SKELS = ["select", "split1", "split1-declared", "split2", "split3", "sortexpr", "join", "join-split", "group", "selfjoin", "join-sub", "join-selfjoin"]
     for i, n in enumerate(names + kw_names):
@@ -380,9 +389,22 @@ def run():
         add_test(sk, "generated-like", tp + "2", tp + "1", None, None, "k", cp + "0", cp + "2", cp + "1")
         add_test(sk, "generated-like", "t", tp + "0", None, None, "k", "a", "b", "c")
         add_test(sk, "generated-like", "t", tp + "1", None, tp + "0", "k", "a", cp + "0", "c")
-    # the open finding F33 (case variants of generated names), always in the skeleton with the most generated CTEs
-    for vn in (tp[:-2].lower() + tp[-2:].upper() + "0", tp.capitalize() + "1"):
-        add_test("split3", "table", vn, "u", None, None, "k", "a", "b", "c")
+    # F33 (fixed by 99a89d3): user tables / aliases that are case variants of generated table names, in the skeletons that
+    # generate CTE names (split*, join-sub), FROM aliases (selfjoin, join-selfjoin) and both (join-split)
+    variants = [tp[:-2].lower() + tp[-2:].upper() + "0", tp.capitalize() + "1", tp.upper() + "0", tp.upper() + "2"]
+    for vi, vn in enumerate(variants):
+        other = variants[(vi + 1) % len(variants)]
+        for sk in ("split3", "split2", "selfjoin", "join-selfjoin", "join-sub", "join-split"):
+            add_test(sk, "table", vn, "u", None, None, "k", "a", "b", "c")
+            add_test(sk, "table", vn, other, None, None, "k", "a", "b", "c")
+            add_test(sk, "alias", "t", "u", vn, None, "k", "a", "b", "c")
+            add_test(sk, "alias", "t", "u", vn, other, "k", "a", "b", "c")
+            add_test(sk, "table2", "t", vn, None, None, "k", "a", "b", "c")
+    # F33b (open): a user COLUMN that is a case variant of a generated column name, next to a duplicate that the split
+    # renames to that generated name: every relative order (the reference binds to the first of the two on SQLite)
+    for uc in (cp.upper() + "0", cp.capitalize() + "0"):
+        for pm in itertools.permutations(range(3)):
+            add_test("split-dup-perm", "generated-like", "t", "u", None, None, "k", uc, "b", "c", perm=pm, ucols=[uc], dup="k")
     # duplicate names at a split together with user columns named like the next generated names, every relative order,
     # the duplicate being the join key or an ordinary column, with 1..3 such user columns (also starting at _expr_1)
     for ucols in ([cp + "0"], [cp + "0", cp + "1"], [cp + "1", cp + "0"], [cp + "1"], [cp + "0", cp + "1", cp + "2"]):
@@ -442,6 +464,119 @@ def run():
             ck.disagreement("names %s: the query returns %s, the named objects hold %s" % (t["names"], got[:3], t["expected"][:3]), case, cl_names)
         elif len(ck.coverage["samples"]) < 10 and i % 397 == 0:
             ck.sample({"prql": t["src"], "sql": a["ok"], "rows": got[:2]})
+    # ------------------------------------------------------------ 4. Model/NameGen.v vs every real call of the modelled sites
+    # (verification hooks of /repo: 44c332e `verif:namegen {site, old, used, new}`, d5c1b7e `verif:pq-names {.., reserved}`,
+    # `verif:ensure_column_name` / `_result`; read through the harness command `log`, which collects log messages).
+    # Programs: every directed family about generated names + a sample of the rest.
+    directed = [i for i, t_ in enumerate(tests) if t_["position"] == "generated-like" or any(case_variant_of_generated(n, tp) or case_variant_of_generated(n, cp) for n in t_["names"])]
+    rest = [i for i in range(len(tests)) if i not in set(directed)]
+    hook_idx = directed + ck.rng.sample(rest, min(len(rest), ck.n(400, 4000)))
+    hook_ans = harness("log", [{"src": tests[i]["src"], "target": "sql.sqlite", "want": [], "msg_prefix": "verif:"} for i in hook_idx])
+
+    def opt(x):
+        return "None" if x is None else "(Some %s)" % coq_codes(x)
+
+    def lst(xs):
+        return "[" + "; ".join(coq_codes(x) for x in xs) + "]"
+
+    def idx_of(name, prefix):
+        return int(name[len(prefix):]) if name.startswith(prefix) and name[len(prefix):].isdigit() else None
+
+    def decl_term(d):
+        if d == "wildcard":
+            return "DWild"
+        if d == "compute":
+            return "DCompute"
+        return "(DSingle %s)" % opt(d["single"])
+
+    ev_cases = {}      # coq expression -> (expected python value, description)   (deduplicated: most events repeat)
+    n_events = 0
+    for i, a in zip(hook_idx, hook_ans):
+        msgs = [e["Message"] for e in a.get("entries", []) if "Message" in e]
+        evs = []
+        for m in msgs:
+            head, _, body = m.partition(" ")
+            if head in ("verif:namegen", "verif:pq-names", "verif:ensure_column_name", "verif:ensure_column_name_result"):
+                try:
+                    evs.append((head[len("verif:"):], json.loads(body)))
+                except ValueError:
+                    ck.violation("hook message is not JSON: %r" % m[:200], {"kind": "hook-json", "src": tests[i]["src"], "message": m[:400]})
+        pqn = [e for h, e in evs if h == "pq-names"]
+        if "ok" in a and len(pqn) != 1:
+            ck.violation("expected exactly one verif:pq-names event, got %d" % len(pqn), {"kind": "hook-missing", "src": tests[i]["src"]})
+            continue
+        reserved = pqn[0]["reserved"] if pqn else None
+        if reserved is not None:
+            # what assign_names reserves: the lower-cased table names and aliases the user wrote (those the program refers to)
+            t_ = tests[i]
+            written = {n.lower() for n in t_["tables"] if n}
+            if not (set(reserved) <= written and t_["tables"][0].lower() in reserved):
+                ck.violation("reserved table names %s are not the lower-cased user names %s" % (reserved, sorted(written)), {"kind": "reserved", "src": t_["src"], "reserved": reserved})
+        tn = 0          # state of the table-name generator: nothing draws from it before assign_names
+        col_n = None    # state of the column-name generator, as the last ensure_column_name_result reported it
+        pending = None
+        for h, e in evs:
+            n_events += 1
+            if h == "ensure_column_name":
+                pending = e
+            elif h == "ensure_column_name_result":
+                if pending is None or pending["cid"] != e["cid"]:
+                    ck.violation("ensure_column_name_result without its call", {"kind": "hook-order", "src": tests[i]["src"]})
+                    continue
+                n0, n1 = idx_of(pending["gen_before"], cp), idx_of(e["gen_after"], cp)
+                res = None if pending["decl"] == "wildcard" else e["name_after"]
+                expr = "ensure_column_name col_prefix %s %s %d" % (decl_term(pending["decl"]), opt(pending["name_before"]), n0)
+                ev_cases.setdefault(expr, ((res, n1), "ensure_column_name", tests[i]["src"]))
+                col_n, pending = n1, None
+            elif h == "namegen" and e["site"] == "anchor_split":
+                if col_n is None:
+                    ck.violation("anchor_split event without a preceding ensure_column_name_result", {"kind": "hook-order", "src": tests[i]["src"]})
+                    continue
+                expr = "split_step col_prefix %s %s %d" % (lst(e["used"]), opt(e["old"]), col_n)
+                ev_cases.setdefault(expr, (e["new"], "anchor_split", tests[i]["src"]))
+                ck.stat("namegen-model", "anchor_split/" + ("kept" if e["new"] == e["old"] else "regenerated"))
+            elif h == "namegen" and e["site"] in ("assign_names", "relvar") and reserved is not None:
+                expr = "regen_r %d lower_ascii table_prefix %s %s %s %d" % (len(e["used"]) + 2, lst(reserved), lst(e["used"]), opt(e["old"]), tn)
+                ev_cases.setdefault(expr, (e["new"], e["site"], tests[i]["src"]))
+                ck.stat("namegen-model", e["site"] + "/" + ("kept" if e["new"] == e["old"] else "generated"))
+                k = idx_of(e["new"], tp)
+                if e["new"] != e["old"] and k is not None:
+                    tn = k + 1                      # a generated name: the generator stands behind it
+                    if any(r == e["new"].lower() for r in reserved) or e["new"] in e["used"]:
+                        ck.violation("generated table name %r is reserved or in use" % e["new"], {"kind": "namegen-fresh", "src": tests[i]["src"], "event": e, "reserved": reserved})
+    try:
+        HN = ("From Coq Require Import List NArith.\nFrom PV Require Import Lib.ListX Model.Ident Model.NameGen Gen.GenIdentDialect.\n"
+              "Import ListNotations.\nLocal Open Scope N_scope.\n")
+        groups = {"ensure_column_name": [], "anchor_split": [], "table": []}
+        for expr, (exp, site, src) in ev_cases.items():
+            groups["table" if site in ("assign_names", "relvar") else site].append((expr, exp, site, src))
+        B = 60
+        batches = [(g, items[k:k + B]) for g, items in groups.items() for k in range(0, len(items), B)]
+        vals = coq_eval(HN, ["[" + "; ".join(x[0] for x in items) + "]" for _, items in batches])
+
+        def name_of(v):
+            return s_of(v[1]) if isinstance(v, tuple) and v[0] == "Some" else None
+
+        for (g, items), vs in zip(batches, vals):
+            for (expr, exp, site, src), v in zip(items, vs):
+                ck.count("namegen-model", expr)
+                if g == "ensure_column_name":
+                    got = (name_of(v[0]), v[1])
+                    ok = got == tuple(exp)
+                elif g == "anchor_split":
+                    got = name_of(v[1][0]) if isinstance(v, tuple) and v[0] == "Some" else "<loop did not end>"
+                    ok = got == exp
+                else:
+                    got = s_of(v[1][0]) if isinstance(v, tuple) and v[0] == "Some" else "<loop did not end>"
+                    ok = got == exp
+                if not ok:
+                    ck.violation("Model/NameGen.v differs from prqlc at %s: model %r, prqlc %r" % (site, got, exp),
+                                 {"kind": "namegen-model", "site": site, "expr": expr, "model": got, "impl": exp, "src": src})
+    except RuntimeError as ex:
+        ck.coverage["model_eval_error_namegen"] = str(ex)[-400:]
+    ck.coverage["namegen_events"] = n_events
+    ck.coverage["namegen_programs"] = len(hook_idx)
+
     ck.coverage["names"] = len(names)
     ck.coverage["e2e_rejected_by_resolver"] = rejected
 
